@@ -30,7 +30,11 @@ def strategy(draw):
     nrec = draw(st.integers(1, 4))
     dts = [draw(gen.choice(gen.DTS))]
     if not single_dt:
-        dts.append(draw(gen.choice(gen.DTS)))
+        if draw(gen.chance(3)):
+            # nearly equal, but distinct, time steps (header rounding / clock drift): inputs must still come back untouched
+            dts.append(dts[0] * (1 + draw(st.sampled_from([1e-9, 2.2e-8, 1e-6, -1e-7]))))
+        else:
+            dts.append(draw(gen.choice(gen.DTS)))
     exp = draw(st.integers(-6, 6))
     n0 = draw(st.integers(64 if spec["fft_n"] == "record-length" else 16, 400))
     equal = m in ("diffuse_field", "psd") or draw(st.booleans())
